@@ -1,6 +1,7 @@
 #include "exec.hpp"
 #include "shim.h"
 #include <algorithm>
+void lu_forget(Exec *e);
 
 const RefResult &Exec::truth(const LP &lp) {
 	std::string key = lp.canon();
@@ -69,6 +70,7 @@ void Exec::run() {
 	}
 	op = 0;
 	if (!stop) end_of_history();
+	lu_forget(this);
 	// tear down through the documented free functions
 	for (auto &kv : clients) { for (auto &sp : kv.second.objs) if (sp->p) { mpq_QSfree_prob(sp->p); sp->p = 0; } kv.second.objs.clear(); }
 	after_lib_call("free");
